@@ -1,8 +1,8 @@
 #!/verif/.venv/bin/python
 # Replay of a solver counterexample against the unmodified code (no shims).
-# property=C06 kernel=program label=sampling:leaves_sequence_untouched
+# property=C06 kernel=program label=extended:keeps_samples
 import sys
 sys.path[:0] = ['/repo' + "/pulser-core", '/repo' + "/pulser-simulation", "/verif"]
 from symx.replay import replay
-sys.exit(replay(check='checks.c06', kernel='program', shape={'program': 'xy_slm_unused', 'ext': [0, 3]},
-                assignment={'a0': '1/1024', 'd0': '0/1', 'a1': '1/1024', 'd1': '0/1'}, label='sampling:leaves_sequence_untouched'))
+sys.exit(replay(check='checks.c06', kernel='program', shape={'program': 'eom_modify', 'ext': [0, 3]},
+                assignment={'a1': '1/1024', 'd1': '-1/1024'}, label='extended:keeps_samples'))
